@@ -173,6 +173,12 @@ fn leaves(f: &From, db: &[Table], out: &mut Vec<(usize, usize)>, width: &mut usi
             leaves(l, db, out, width);
             leaves(r, db, out, width);
         }
+        // a derived table written in the case itself (engine `sql` generates them; this engine's generator does not):
+        // one opaque leaf
+        From::Derived(_, _, items) => {
+            out.push((super::sql::DERIVED_LEAF, *width));
+            *width += items.len();
+        }
     }
 }
 
@@ -184,8 +190,7 @@ fn leaves_of(f: &From, db: &[Table]) -> (Vec<(usize, usize)>, usize) {
 }
 
 fn from_tys(f: &From, db: &[Table]) -> Vec<Ty> {
-    let (ls, _) = leaves_of(f, db);
-    ls.iter().flat_map(|(t, _)| db.get(*t).map(|t| t.tys.clone()).unwrap_or_default()).collect()
+    super::sql::from_tys(f, db)
 }
 
 #[derive(Clone, Copy, PartialEq, Eq, Debug)]
@@ -304,20 +309,26 @@ fn left_deep(f: &From) -> Option<(usize, Vec<(&'static str, Option<E>)>)> {
             js.push((*k, on.clone()));
             Some((t, js))
         }
+        From::Derived(..) => None,
     }
 }
 
 /// FROM clause as written
-fn sql_from_plain(f: &From, next: &mut usize, col: &dyn Fn(usize) -> String) -> String {
+fn sql_from_plain(f: &From, db: &[Table], next: &mut usize, col: &dyn Fn(usize) -> String) -> String {
     match f {
         From::Table(t) => {
             let s = format!("t{} AS r{}", t, *next);
             *next += 1;
             s
         }
+        From::Derived(inner, w, items) => {
+            let s = super::sql::sql_derived(inner, w, items, *next, db);
+            *next += 1;
+            s
+        }
         From::Join(k, l, r, on) => {
-            let ls = sql_from_plain(l, next, col);
-            let rs = sql_from_plain(r, next, col);
+            let ls = sql_from_plain(l, db, next, col);
+            let rs = sql_from_plain(r, db, next, col);
             match on {
                 Some(e) => format!("{} {} {} ON {}", ls, join_kw(k), rs, sql_expr(e, 1, col)),
                 None => format!("{} {} {}", ls, join_kw(k), rs),
@@ -459,6 +470,7 @@ fn sql_from_derived(
         _ => {
             fn go(
                 f: &From,
+                db: &[Table],
                 next: &mut usize,
                 derived: &mut dyn FnMut(usize, usize, Option<String>) -> String,
                 col: &dyn Fn(usize) -> String,
@@ -469,9 +481,14 @@ fn sql_from_derived(
                         *next += 1;
                         s
                     }
+                    From::Derived(inner, w, items) => {
+                        let s = super::sql::sql_derived(inner, w, items, *next, db);
+                        *next += 1;
+                        s
+                    }
                     From::Join(k, l, r, on) => {
-                        let ls = go(l, next, derived, col);
-                        let rs = go(r, next, derived, col);
+                        let ls = go(l, db, next, derived, col);
+                        let rs = go(r, db, next, derived, col);
                         match on {
                             Some(e) => format!("{} {} {} ON {}", ls, join_kw(k), rs, sql_expr(e, 1, col)),
                             None => format!("{} {} {}", ls, join_kw(k), rs),
@@ -480,7 +497,7 @@ fn sql_from_derived(
                 }
             }
             let mut next = 0;
-            (go(f, &mut next, &mut derived, col), None)
+            (go(f, db, &mut next, &mut derived, col), None)
         }
     }
 }
@@ -509,7 +526,7 @@ pub fn select_sql(q: &Select, db: &[Table], ixs: &[Ix], v: Variant) -> Option<St
         }
         _ => {
             let mut next = 0;
-            (sql_from_plain(&q.from, &mut next, &col), vec![])
+            (sql_from_plain(&q.from, db, &mut next, &col), vec![])
         }
     };
     let out_exprs: Vec<String>;
